@@ -177,5 +177,8 @@ fixed("C02", "aa1be85", ["c02:%s:ONESHOT:async:%s:%s" % (n, e, k) for n in ("tcp
 fixed("C18", "4b8fdb3", ["crash:panic: sync: WaitGroup is reused before previous Wait has returned"],
       "Engine.DialAsync racing Stop: the dial raises the wait-group counter from zero while Stop is already waiting on it; the runtime panics (history element dials_during_stop; the twin of the AddConn defect repaired by 54f4194)")
 
+fixed("C03", "2cff64a", ["c03:ET-async:%s:close-not-detected" % k for k in ("peer-close-in-handler", "peer-reset", "peer-close")],
+      "EPOLLET + AsyncReadInPoller: the peer sends and closes while the reading job of the connection is running (data handler busy); the hang-up with unread data is left to the job, whose last counted pass consumes the rest with a short read and returns without having seen the end of the stream - no further edge comes, the connection stays open for good (1 of 2880 thorough cases by chance; scenario peer-close-in-handler holds the handler and meets it in every ET-async cell)")
+
 json.dump(F, open("/verif/known_findings.json", "w"), indent=1)
 print("wrote %d entries (%d known)" % (len(F), sum(1 for f in F if f["status"] == "known")))
